@@ -99,11 +99,14 @@ func (k Keeper) CalculateBatchAllocation(ctx context.Context, auction types.Auct
 		// Note that our goal is to find the first true(matched) condition, starting
 		// from the lowest price.
 		i = (len(prices) - 1) - i
-		res, matched := types.Match(prices[i], prices, bidsByPrice, sellingAmt, allowedBidders)
-		if matched { // If we found a valid matching price, store the result
+		// A price fits when the capped demand at or above it does not exceed the selling amount
+		// (res != nil), even if nothing is matched at it. Whether something matched is not
+		// monotone in the price, so it can't be the predicate of the binary search.
+		res, _ := types.Match(prices[i], prices, bidsByPrice, sellingAmt, allowedBidders)
+		if res != nil { // If we found a valid matching price, store the result
 			matchRes = res
 		}
-		return matched
+		return res != nil
 	})
 
 	mInfo.MatchedLen = int64(len(matchRes.MatchedBids))
